@@ -198,7 +198,8 @@ PROPS = {
     "C05": dict(
         pkg="c05", level="exploration", journal_cases=True,
         tests=[T("TestC05", Q(30, timeout=400, shards=4, shrinktime="30s"), Q(100, timeout=1500, shards=16, shrinktime="90s")),
-               T("TestC05Tables", Q(40, timeout=300, shrinktime="20s"), Q(200, timeout=900, shards=2, shrinktime="60s"))],
+               T("TestC05Tables", Q(40, timeout=300, shrinktime="20s"), Q(200, timeout=900, shards=2, shrinktime="60s")),
+               T("TestC05Live", Q(12, timeout=400, shards=4, shrinktime="30s"), Q(60, timeout=1500, shards=12, shrinktime="90s"))],
         rule="TestC05: a real leader engine and a real follower engine (in-process, single-node clusters) wired like cmd/leader.go / cmd/follower.go with three Log servers (message-size limits 256 B, 4 KiB, 4 MiB; odd shards run "
              "the leader with the log cache on), real Snapshot/Metadata/KV services over loopback gRPC; the replication worker is built by the real factory and stepped by the harness (verif hook). Histories of 3-40 actions: leader put "
              "(values up to 3 KB) / delete / range delete / non-idempotent txn (if ctr==n then ctr:=n+1 else ctr:=0 + range delete), poll(one worker iteration against a drawn Log server, incl. snapshot recovery when the leader answers "
